@@ -362,6 +362,15 @@ def result_order(ctx, o):
                         o.witness('submit in index order')
                     else:
                         o.fail(P, where, st, 'runs are not submitted for i = 0 .. n-1 in ascending order with (simulation, i, *args, **kwargs)', file=S.mod.path, line=st.lineno)
+                elif isinstance(a_, ast.Call) and ast.unparse(a_.func) == 'System._simulation_helper':
+                    # the in-process branch written as an append loop
+                    ok = loop is not None and isinstance(loop.target, ast.Name) and asc_range(loop.iter) and helper_call(a_, loop.target.id) and not _has_jump(loop)
+                    if ok:
+                        lists[L] = 'inproc'
+                        state['helper_sites'] += 1
+                        o.witness('in-process branch')
+                    else:
+                        o.fail(P, where, st, 'in-process runs are not made for i = 0 .. n-1 in ascending order with (simulation, i, *args, **kwargs)', file=S.mod.path, line=st.lineno)
                 elif isinstance(a_, ast.Call) and call_attr(a_) == 'result':
                     recv = a_.func.value
                     ok = False
